@@ -1,5 +1,4 @@
 /- C19: the registry behaves as one atomic map under any concurrency — theorems about the small-step lock model. -/
-import FinProto.Obl.Side
 import FinProto.Props.RegistryProofs
 namespace FinProto.Obl
 end FinProto.Obl
